@@ -672,6 +672,10 @@ pub fn hex(b: &[u8]) -> String {
 
 #[derive(Clone, Copy, Debug)]
 pub struct GenParams {
+    /// per-case knobs (set by udp_case): weight of `stopped`, weight of clean ops, torrents used
+    pub stop_w: u32,
+    pub clean_w: u32,
+    pub torrents: u8,
     pub max_ops: usize,
     pub ips: u8,
     pub ports: u8,
@@ -683,8 +687,8 @@ pub struct GenParams {
 
 pub fn announce_op(p: GenParams) -> impl Strategy<Value = UdpOp> + Clone {
     (
-        (0..NUM_TORRENTS, 0u8..3, 0..p.ips, 0..p.ports, 0..p.pids),
-        prop_oneof![3 => Just(0u8), 1 => Just(1u8), 3 => Just(2u8), 3 => Just(3u8)],
+        (0..p.torrents.clamp(1, NUM_TORRENTS), 0u8..3, 0..p.ips, 0..p.ports, 0..p.pids),
+        prop_oneof![3 => Just(0u8), 1 => Just(1u8), 3 => Just(2u8), p.stop_w.max(1) => Just(3u8)],
         prop_oneof![
             4 => Just(0i64),
             4 => Just(1i64),
@@ -754,7 +758,7 @@ pub fn udp_op(p: GenParams) -> BoxedStrategy<UdpOp> {
         prop_oneof![
             12 => announce_op(p),
             2 => scrape,
-            3 => clean,
+            p.clean_w.max(1) => clean,
             1 => observe,
             2 => set
         ]
@@ -763,7 +767,7 @@ pub fn udp_op(p: GenParams) -> BoxedStrategy<UdpOp> {
         prop_oneof![
             12 => announce_op(p),
             2 => scrape,
-            3 => clean,
+            p.clean_w.max(1) => clean,
             1 => observe
         ]
         .boxed()
@@ -776,11 +780,17 @@ pub fn udp_case(p: GenParams, peer_clients: bool) -> BoxedStrategy<UdpCase> {
     (
         prop_oneof![Just(1u8), Just(2u8), Just(p.ips.max(1))],
         prop_oneof![Just(1u8), Just(2u8), Just(3u8), Just(p.ports.max(1))],
+        prop_oneof![Just(1u32), Just(3u32)],
+        prop_oneof![Just(1u32), Just(3u32)],
+        prop_oneof![Just(1u8), Just(2u8), Just(NUM_TORRENTS)],
     )
-        .prop_flat_map(move |(ips, ports)| {
+        .prop_flat_map(move |(ips, ports, stop_w, clean_w, torrents)| {
             let q = GenParams {
                 ips: ips.min(p.ips.max(1)),
                 ports: ports.min(p.ports.max(1)),
+                stop_w,
+                clean_w,
+                torrents,
                 ..p
             };
             (
